@@ -44,6 +44,7 @@ type interpreter struct {
 	uniq               map[value]*value
 	inStdInit          bool
 	fnvStreams         map[*value][]value
+	syncMaps           map[*value]*omap
 	mergeable          map[string]bool
 	noMerge            bool
 	mutexes            map[*value]*mutexState
@@ -692,7 +693,7 @@ func mustDeref(t types.Type) types.Type {
 // interpreter construction, globals and package initialisation
 
 func newInterpreter(ex *Explorer, p *pathState) *interpreter {
-	i := &interpreter{ex: ex, p: p, prog: ex.prog, globals: map[*ssa.Global]*value{}, initDone: map[*ssa.Package]bool{}, sizes: ex.sizes, replace: map[string]value{}, onceDone: map[*value]bool{}, uniq: map[value]*value{}, mergeable: map[string]bool{}, fnvStreams: map[*value][]value{}, mutexes: map[*value]*mutexState{}}
+	i := &interpreter{ex: ex, p: p, prog: ex.prog, globals: map[*ssa.Global]*value{}, initDone: map[*ssa.Package]bool{}, sizes: ex.sizes, replace: map[string]value{}, onceDone: map[*value]bool{}, uniq: map[value]*value{}, mergeable: map[string]bool{}, fnvStreams: map[*value][]value{}, syncMaps: map[*value]*omap{}, mutexes: map[*value]*mutexState{}}
 	if rp := i.prog.ImportedPackage("runtime"); rp != nil {
 		i.runtimeErrorString = rp.Type("errorString").Object().Type()
 	} else {
